@@ -1,11 +1,26 @@
 //! `verif <ID> quick|thorough` runs a property check; `verif replay <file>`
 //! re-executes a replay file; `verif list` prints the property ids.
 
+// Second copy of the control plane, compiled into this crate with shuttle atomics (engine S).
+#[allow(dead_code, unused_imports, unexpected_cfgs)]
+#[path = "/repo/src/config.rs"]
+mod config;
+#[allow(dead_code, unused_imports, unexpected_cfgs)]
+#[path = "/repo/src/control.rs"]
+mod control;
+#[allow(dead_code, unused_imports, unexpected_cfgs)]
+#[path = "/repo/src/stats.rs"]
+mod stats;
+#[allow(dead_code, unused_imports, unexpected_cfgs)]
+#[path = "/repo/src/subscriptions.rs"]
+mod subscriptions;
+
 mod checks;
 mod common;
 mod findings;
 mod ksim;
 mod tsim;
+mod ssim;
 mod wsim;
 mod lsim;
 mod mon;
@@ -15,6 +30,9 @@ mod runner;
 use common::Tier;
 
 fn main() {
+    // shuttle prints a notice about Relaxed orderings on first use; the limit is stated in the evidence
+    // SAFETY: single-threaded at this point.
+    unsafe { std::env::set_var("SHUTTLE_SILENCE_WARNINGS", "1") };
     runner::install_panic_hook();
     let args: Vec<String> = std::env::args().collect();
     let checks = checks::all();
@@ -94,6 +112,26 @@ fn selftest(checks: &[Box<dyn common::Check>]) -> i32 {
         } else {
             println!("selftest {}: {} runs x2, hashes equal", c.id(), n);
         }
+    }
+    // engine S must really run on shuttle atomics (the seam lives in /repo/src/config.rs)
+    let probe = ssim::SPlan {
+        seed: 7,
+        pct: None,
+        threads: vec![vec![ssim::Op::SetTimeout(0); 4], vec![ssim::Op::Snapshot; 4]],
+    };
+    let max_switches = (0..40u64)
+        .map(|s| {
+            let mut p = probe.clone();
+            p.seed = s;
+            ssim::execute(&p, false).stats.get("c18s.context_switches")
+        })
+        .max()
+        .unwrap_or(0);
+    if max_switches < 12 {
+        eprintln!("HARNESS-ERROR: selftest: engine S saw at most {max_switches} context switches: the configuration atomics are not shuttle's (is the verif_shuttle seam in /repo/src/config.rs present?)");
+        bad += 1;
+    } else {
+        println!("selftest engine S: shuttle atomics active (up to {max_switches} context switches in an 8-operation scenario)");
     }
     if bad > 0 { 2 } else { 0 }
 }
